@@ -4,6 +4,7 @@ From Coq Require Import List NArith Bool.
 From TT Require Import Lib.BytesL Model.Channels Generated.ChannelFacts Proofs.ChannelsProofs.
 From TT Require Import Generated.Http1Facts Model.Http1Wire Spec.Rfc9112 Proofs.Http1WireProofs.
 From TT Require Import Model.Http1Download Proofs.Http1DownloadProofs.
+From TT Require Import Model.RpHeadWait Proofs.RpHeadWaitProofs.
 Import ListNotations.
 Open Scope N_scope.
 
@@ -90,6 +91,21 @@ Example ex_dropped_future :
   wire (drun true [DOffer [1;2;3;4]%N; DTake; DWrite 1; DDrop; DClose]) = [1;2;3;4]%N
   /\ wire (drun false [DOffer [1;2;3;4]%N; DTake; DWrite 1; DDrop; DClose]) = [1]%N.
 Proof. vm_compute. split; reflexivity. Qed.
+
+(* "the origin's response ... relayed": while the reverse proxy waits for the origin's response head it goes on writing the request
+   body (Model/RpHeadWait.v). For every order in which reads from the origin and steps of the body write are handled and for any
+   head parser, what the client is told is decided by the origin's side alone; in particular an origin that answers and closes
+   without reading the upload has its answer relayed, wherever the failure of the write falls. As found the failure ended the wait
+   with 502 whenever it was handled first *)
+Theorem origins_answer_survives_a_failed_upload :
+  (forall complete evs,
+     verdict (run complete RP_HEAD_WAIT_KEEPS_THE_ORIGINS_ANSWER evs)
+     = verdict (run complete RP_HEAD_WAIT_KEEPS_THE_ORIGINS_ANSWER (filter is_origin evs)))
+  /\ (forall complete pre post bytes h t,
+        forallb (fun e => negb (is_origin e)) pre = true -> complete bytes = Some (h, t) ->
+        run complete RP_HEAD_WAIT_KEEPS_THE_ORIGINS_ANSWER (pre ++ EOrigin bytes :: post) = Head h t).
+Proof. split; [exact origins_answer_decides_proof|exact refused_upload_is_relayed_proof]. Qed.
+Print Assumptions origins_answer_survives_a_failed_upload.
 
 Theorem code_facts :
   DEMUX_SELECT_AS_MODELLED = true /\ SPEEDTEST_AS_MODELLED = true /\ PING_ANSWERS_200_EOF = true
